@@ -69,6 +69,66 @@ Example C16_variance_hypotheses_met :
   (1 # 2) * (1 # 2) * 4 * (1 # 3) * 3 == 1 /\ (1 # 3) * 3 == 1.
 Proof. split; reflexivity. Qed.
 
+(* ---------------------------------------------------------------- the whole operation *)
+(* modify_velocities of CP2K / GROMACS / LAMMPS / TurtleMD without momentum reset: EVERY
+   component of EVERY atom of the velocities written to genvel.* satisfies
+   m v^2 * vunit2 = kb_engine T z^2 with the engine's own constants (vunit2 = scale^2 for
+   LAMMPS, 1 otherwise), z being the stream value that component was drawn from *)
+Theorem C16_modify_variance : forall e kb_user temp mass src ek zm sig z,
+  use_zm e zm = false -> ~ temp * kb_engine e kb_user == 0 ->
+  Forall2 (fun s m => s * s * m * beta_of (kb_engine e kb_user) temp == 1) sig mass ->
+  Forall (fun zc => length zc = length sig) z ->
+  Forall2 (fun vc zc =>
+             Forall2 Qeq (map2 (fun m v => m * (v * v) * vunit2 e) mass vc)
+                         (map (fun x => kb_engine e kb_user * temp * (x * x)) zc))
+          (f_vel (r_frame (modify_std e mass src ek zm sig z))) z.
+Proof. exact modify_std_variance. Qed.
+Print Assumptions C16_modify_variance.
+
+(* ASE (either statement order), sigp^2 = m kT *)
+Theorem C16_modify_variance_ase : forall fx kT mass src zm sigp z,
+  use_zm Ase zm = false ->
+  Forall2 (fun sp m => sp * sp == m * kT /\ ~ m == 0) sigp mass ->
+  Forall (fun zc => length zc = length sigp) z ->
+  Forall2 (fun vc zc =>
+             Forall2 Qeq (map2 (fun m v => m * (v * v)) mass vc) (map (fun x => kT * (x * x)) zc))
+          (f_vel (r_frame (modify_ase fx mass src zm sigp z))) z.
+Proof. exact modify_ase_variance. Qed.
+Print Assumptions C16_modify_variance_ase.
+
+(* the kinetic energy the operation REPORTS is (1/2) kT * (sum of all z^2): equipartition,
+   <kin_new> = (npart*dim/2) kT for a unit-variance stream *)
+Theorem C16_modify_equipartition : forall e kb_user temp mass src ek zm sig z,
+  use_zm e zm = false -> ~ temp * kb_engine e kb_user == 0 ->
+  Forall2 (fun s m => s * s * m * beta_of (kb_engine e kb_user) temp == 1) sig mass ->
+  Forall (fun zc => length zc = length sig) z ->
+  r_kin_new (modify_std e mass src ek zm sig z) * vunit2 e
+  == kin_half * (kb_engine e kb_user * temp) * sum_sq z.
+Proof. exact modify_std_equipartition. Qed.
+Print Assumptions C16_modify_equipartition.
+
+Theorem C16_modify_equipartition_ase : forall kT mass src zm sigp z,
+  use_zm Ase zm = false ->
+  Forall2 (fun sp m => sp * sp == m * kT /\ ~ m == 0) sigp mass ->
+  Forall (fun zc => length zc = length sigp) z ->
+  r_kin_new (modify_ase true mass src zm sigp z) == (1 # 2) * kT * sum_sq z.
+Proof. exact modify_ase_equipartition. Qed.
+Print Assumptions C16_modify_equipartition_ase.
+
+Example C16_modify_variance_hypotheses_met :
+  let mass := [4; 1] in let sig := [1 # 2; 1] in let z := [[2; -3]; [0; 1]; [1; 1]] in
+  use_zm Turtle None = false /\ ~ 3 * kb_engine Turtle (1 # 3) == 0 /\
+  Forall2 (fun s m => s * s * m * beta_of (kb_engine Turtle (1 # 3)) 3 == 1) sig mass /\
+  Forall (fun zc => length zc = length sig) z /\
+  r_kin_new (modify_std Turtle mass (mkFrame [] [] [] []) None None sig z) == (1 # 2) * 1 * 16.
+Proof.
+  cbv zeta. split; [reflexivity|]. split.
+  { intros H. apply Qeq_bool_iff in H. vm_compute in H. discriminate. }
+  split. { repeat constructor. }
+  split. { repeat constructor. }
+  apply Qeq_bool_iff. vm_compute. reflexivity.
+Qed.
+
 (* ---------------------------------------------------------------- unit constants *)
 (* each engine's kb is the SI Boltzmann constant in the engine's energy unit, and
    energy unit = mass unit * velocity unit^2 for the numbers written to the file *)
@@ -84,16 +144,12 @@ Proof. exact (conj units_lammps_kb units_lammps_mv2). Qed.
 Print Assumptions C16_units_lammps.
 
 (* CP2K: Hartree atomic units (E_h = m_e * (a0/t_au)^2 by definition); the constants in the
-   source are kb in E_h/K -- only within 2e-6 of the 2019 SI value, see the next theorem --
-   and the electron masses per g/mol *)
+   source are kb in E_h/K -- the literal is 1.2e-6 away from the 2019 SI value, so the bound
+   shown is tol_cp2k = 2e-6 -- and the electron masses per g/mol *)
 Theorem C16_units_cp2k :
   within tol_cp2k (kb_cp2k * si_Eh) si_k /\ within tol6 (massfac_cp2k * si_me) si_mu.
 Proof. exact (conj units_cp2k_kb units_cp2k_mass). Qed.
 Print Assumptions C16_units_cp2k.
-
-Theorem C16_units_cp2k_kb_coarser_than_1e6 : ~ within tol6 (kb_cp2k * si_Eh) si_k.
-Proof. exact units_cp2k_kb_not_1e6. Qed.
-Print Assumptions C16_units_cp2k_kb_coarser_than_1e6.
 
 (* ASE: eV, amu, and ASE's derived time unit (eV = amu * (A/t)^2 by definition); both the
    engine's kb (used for beta) and the library's kB (used for the draw) are k/e *)
@@ -102,6 +158,48 @@ Theorem C16_units_ase :
   within tol6 kb_ase ase_lib_kB.
 Proof. exact (conj units_ase_kb (conj units_ase_lib_kb units_ase_kb_agree)). Qed.
 Print Assumptions C16_units_ase.
+
+(* ---------------------------------------------------------------- the temperature, in SI units *)
+(* A kinetic term A = kb T z^2 in an energy unit of Eunit joule, with kb * Eunit = k_B(SI)
+   within tol, is k_B T z^2 joule within tol *)
+Theorem C16_si_temperature : forall kb Eunit tol A T z,
+  A == kb * T * (z * z) -> within tol (kb * Eunit) si_k -> 0 <= T ->
+  within tol (A * Eunit) (si_k * T * (z * z)).
+Proof. exact si_temperature. Qed.
+Print Assumptions C16_si_temperature.
+
+(* per engine, with the constants found in the sources: mass in kg times (velocity in m/s)^2
+   of a written component is k_B(SI) * T * z^2 joule.  The hypothesis of each is the conclusion
+   of C16_modify_variance / C16_modify_variance_ase for that engine. *)
+Theorem C16_temperature_si_gromacs : forall m v T z,
+  m * (v * v) == kb_gromacs * T * (z * z) -> 0 <= T ->
+  within tol6 ((m * gmx_mass) * ((v * gmx_vel) * (v * gmx_vel))) (si_k * T * (z * z)).
+Proof. exact temperature_si_gromacs. Qed.
+Print Assumptions C16_temperature_si_gromacs.
+
+Theorem C16_temperature_si_lammps : forall m v T z,
+  m * (v * v) * (scale_lammps * scale_lammps) == kb_lammps * T * (z * z) -> 0 <= T ->
+  within tol6 ((m * lmp_mass) * ((v * lmp_vel) * (v * lmp_vel))) (si_k * T * (z * z)).
+Proof. exact temperature_si_lammps. Qed.
+Print Assumptions C16_temperature_si_lammps.
+
+Theorem C16_temperature_si_cp2k : forall m v T z,
+  m * (v * v) == kb_cp2k * T * (z * z) -> 0 <= T ->
+  within tol_cp2k ((m * cp2k_mass) * (v * v * cp2k_vel2)) (si_k * T * (z * z)).
+Proof. exact temperature_si_cp2k. Qed.
+Print Assumptions C16_temperature_si_cp2k.
+
+Theorem C16_temperature_si_ase : forall m v T z,
+  m * (v * v) == ase_lib_kB * T * (z * z) -> 0 <= T ->
+  within tol6 ((m * ase_mass) * (v * v * ase_vel2)) (si_k * T * (z * z)).
+Proof. exact temperature_si_ase. Qed.
+Print Assumptions C16_temperature_si_ase.
+
+Example C16_si_hypotheses_met :
+  (1 # 2) * (2 * 2) == kb_gromacs * (2 / kb_gromacs) * (1 * 1) /\ 0 <= 2 / kb_gromacs.
+Proof.
+  split; [apply Qeq_bool_iff; vm_compute; reflexivity|apply Qle_bool_iff; vm_compute; reflexivity].
+Qed.
 
 (* ---------------------------------------------------------------- zero total momentum *)
 Theorem C16_momentum_zero : forall m c,
